@@ -7,6 +7,41 @@ from .gen_tables import KIND_CODE
 LEX_ALPHA16 = ["a", "1", "0", "-", ".", "e", '"', "\\", "u", "{", "}", "#", " ", "\n", "\r", "\ud800"]
 
 
+def escape_family(rng=None, extra=0):
+    """Strings exercising every escape reader around the code-point boundaries: fixed-width escapes alone and in
+    (would-be) surrogate pairs, variable-width escapes, mixed with raw surrogates; quoted and block form."""
+    bound = ["0000", "0001", "0009", "001F", "0022", "005C", "007F", "00E9", "D7FF", "D800", "D801", "DBFF", "DC00",
+             "DC01", "DFFF", "E000", "E001", "FFFD", "FFFF", "d83d", "de00", "dbff", "dfff", "e000"]
+    if rng is not None:
+        bound = bound + ["%04X" % rng.randrange(0x10000) for _ in range(extra)]
+    out = []
+    for a in bound:
+        out.append('"\\u%s"' % a)
+        out.append('"x\\u%sy"' % a)
+        out.append('"\\u%s' % a)
+        out.append('"\\u%s\\' % a)
+        out.append('"\\u%s\\u' % a)
+        out.append('"\\u%s\\n"' % a)
+        out.append('"\\u%s\ud83d"' % a)
+        out.append('"\ud83d\\u%s"' % a)
+        out.append('"\\u{%s}"' % a)
+        out.append('"\\u{%s}\\u{%s}"' % (a, a))
+        out.append('"\\u%s\\u{DC00}"' % a)
+        out.append('"\\u{D83D}\\u%s"' % a)
+        out.append('"""\\u%s"""' % a)
+        for b in bound:
+            out.append('"\\u%s\\u%s"' % (a, b))
+    for v in ["0", "00000000", "10FFFF", "110000", "0010FFFF", "00110000", "FFFFFF", "FFFFFFF", "FFFFFFFF", "123456789",
+              "D7FF", "D800", "DFFF", "E000", "", "G", "1G", " 1", "1 ", "-1", "+1", "1F600", "1f600", "{1}"]:
+        out.append('"\\u{%s}"' % v)
+        out.append('"\\u{%s"' % v)
+        out.append('"\\u{%s}x' % v)
+    for e in ['b', 'f', 'n', 'r', 't', '"', '/', '\\\\', 'a', 'x41', 'U0041', '0', ' ', '\n', 'u', 'u1', 'u12', 'u123', 'u{', 'u}', 'u{}']:
+        out.append('"\\%s"' % e)
+        out.append('"\\%s' % e)
+    return out
+
+
 def impl_lex(body, coord=False):
     """Encode the implementation's token list (comments included) like Run.enc_lex."""
     from graphql.error import GraphQLSyntaxError
